@@ -295,7 +295,9 @@ def candidate_pairs(rep, F, rule="R17.4"):
         key = "candidates:" + nm
         try:
             fn = F.one(r"RStarEdgeSetIntersector as .*EdgeSetIntersector<F>>::%s$" % nm, crates=("geo",))
-            paths = opaque(F, loop_bound=2, max_paths=5000).run(fn)
+            # helpers of the crate are inlined (an extracted `add_candidate(..)` is the same code); the graph accessors, the index and the sink stay symbols
+            paths = Symex(F, inline_crates=("geo",), loop_bound=2, max_paths=5000,
+                          no_inline=[r"::add_intersections$", r"::get_or_build_tree$", r"GeometryGraph.*::edges$", r"intersection_candidates", r"::deref$"]).run(fn)
         except (KeyError, Unanalysable) as e:
             rep.bad(rule, key + ":unanalysable", str(e))
             continue
